@@ -1,24 +1,34 @@
-"""Builder-default monitor.
+"""Builder argument-variant workload (defaults left out, other documented forms).
 
 Every call a check makes to a lock / witness / certificate builder goes
-through a proxy of the `tools` module. Whenever a passed argument equals the
-default value printed in docs.md (ref/apidefaults.py), the builder is called a
-second time with those arguments *left out*; the builders are pure functions of
-their arguments under the pinned clock, so both calls must return the same
-script(s). A difference means the value the code falls back to is not the
-documented one — a caller who follows the documents gets another lock.
+through a proxy of the `tools` module. For a deterministic half of the calls
+(by a hash of the builder name and its arguments, so a replay takes the same
+decisions) the proxy rewrites the call the way another caller following
+docs.md could have written it:
 
-The explicit call is the one whose result the check goes on to use, so the
-check's own oracle is unaffected.
+* an argument whose value equals the default printed in docs.md
+  (ref/apidefaults.py) is *left out*;
+* an argument of a union type (`bytes | VerifyKey`, `bytes | SigningKey`,
+  `bytes | Certificate`, `bytes | ScriptProtocol`, lists of those) is passed in
+  its other form.
+
+The rewritten call's result is what the check goes on to use, so the check's
+own oracle — not a byte comparison — decides whether the lock / witness still
+has the semantics the property states: a fallback value other than the
+documented one, or a form handled differently, shows up as a wrong verdict of
+the lock. If the rewritten call raises where the call as written does not, that
+is recorded as a violation of its own (the builder does not produce a result
+for a documented input) and the result of the call as written is used.
 """
 from __future__ import annotations
 import functools
 
-from .ref.apidefaults import DOC, REQUIRED
+from .ref.apidefaults import DOC, FORMS, REQUIRED
 
 
 class S:
-    comparisons = 0
+    candidates = 0
+    rewritten = 0
     per_fn: dict = {}
     problems: list = []
     busy = False
@@ -90,46 +100,132 @@ def canon(v):
     return repr(type(v))
 
 
-def _call(name, fn, spec, tools, *a, **kw):
+NOCHANGE = object()
+
+
+def _convert(v, kind, tools):
+    """the other documented form of an argument (bytes <-> object)"""
+    import nacl.signing as ns
+    try:
+        if kind == 'vkey':
+            if type(v) is bytes and len(v) == 32:
+                return ns.VerifyKey(v)
+            if isinstance(v, ns.VerifyKey):
+                return bytes(v)
+        elif kind == 'skey':
+            if type(v) is bytes and len(v) == 32:
+                return ns.SigningKey(v)
+            if isinstance(v, ns.SigningKey):
+                return bytes(v)
+        elif kind in ('vkeys', 'certs'):
+            if isinstance(v, (list, tuple)) and v:
+                one = 'vkey' if kind == 'vkeys' else 'cert'
+                out, changed = [], False
+                for i, x in enumerate(v):
+                    c = _convert(x, one, tools) if i % 2 == 0 else NOCHANGE
+                    changed |= c is not NOCHANGE
+                    out.append(x if c is NOCHANGE else c)
+                if changed:
+                    return type(v)(out)
+        elif kind == 'cert':
+            # only a byte string that IS a certificate's serialisation has
+            # an object form (corrupted ones stay as they are)
+            if type(v) is bytes:
+                c = tools.Certificate.unpack(v)
+                return c if c.pack() == v else NOCHANGE
+            if type(v).__name__ == 'Certificate':
+                return v.pack()
+        elif kind == 'script_or_bytes':
+            if type(v) is bytes:
+                sc = tools.Script.from_bytes(v)
+                return sc if bytes(sc.bytes) == v else NOCHANGE
+            if hasattr(v, 'bytes') and hasattr(v, 'src'):
+                return bytes(v.bytes)
+        elif kind == 'vkeydict':
+            if isinstance(v, dict) and v:
+                out, changed = {}, False
+                for k, x in v.items():
+                    c = _convert(k, 'vkey', tools)
+                    changed |= c is not NOCHANGE
+                    out[k if c is NOCHANGE else c] = x
+                if changed:
+                    return out
+    except BaseException:
+        return NOCHANGE
+    return NOCHANGE
+
+
+def _record(kind, name, params, bound, want, got):
+    if len(S.problems) >= 40:
+        return
+    try:
+        args = {k: _enc(v) for k, v in bound.items()}
+    except Unencodable:
+        args = None
+    S.problems.append((kind, name, params,
+                       {'builder_default': {'fn': name, 'args': args,
+                                            'rewritten': params}},
+                       want, got))
+
+
+def _decide(name, bound) -> bool:
+    import hashlib
+    h = hashlib.blake2b(repr((name, sorted(
+        (k, repr(canon(v))) for k, v in bound.items()))).encode(),
+        digest_size=2).digest()
+    return bool(h[0] & 1)
+
+
+def _call(name, fn, tools, *a, **kw):
     if S.busy:
         return fn(*a, **kw)
-    names = [p for p, _ in spec]
-    out = fn(*a, **kw)                      # what the check asked for
+    spec, forms = DOC.get(name), FORMS.get(name)
+    names = [p for p, _ in (spec or forms)]
     if len(a) > len(names) or any(k not in names for k in kw):
-        return out
+        return fn(*a, **kw)
     bound = {**dict(zip(names, a)), **kw}
-    cand = [p for p, d in spec if d is not REQUIRED and p in bound
+    # (1) documented default values that could be left out
+    cand = [p for p, d in (spec or []) if d is not REQUIRED and p in bound
             and type(bound[p]) is type(d) and bound[p] == d]
-    if not cand:
-        return out
+    # (2) union-typed arguments in their other documented form
+    alt, changed = dict(bound), []
+    for p, kind in (forms or []):
+        if kind and p in bound and p not in cand:
+            c = _convert(bound[p], kind, tools)
+            if c is not NOCHANGE:
+                alt[p] = c
+                changed.append(p)
+    if not cand and not changed:
+        return fn(*a, **kw)
+    S.candidates += 1
+    if not _decide(name, bound):
+        return fn(*a, **kw)
     # positional arguments stay positional up to the first omitted one; the
     # ones after it are passed by their documented names
-    first = min(names.index(p) for p in cand)
-    pos = list(a[:min(first, len(a))])
-    rest = {names[i]: a[i] for i in range(first, len(a))
+    first = min([names.index(p) for p in cand] + [len(names)])
+    npos = min(first, len(a))
+    pos = [alt[names[i]] for i in range(npos)]
+    rest = {names[i]: alt[names[i]] for i in range(npos, len(a))
             if names[i] not in cand}
-    rest.update({k: v for k, v in kw.items() if k not in cand})
+    rest.update({k: alt[k] for k in kw if k not in cand})
     S.busy = True
     try:
         try:
-            alt = fn(*pos, **rest)
-            alt_c = canon(alt)
+            out = fn(*pos, **rest)
         except BaseException as e:
-            alt_c = ('raised', type(e).__name__, str(e)[:120])
+            try:
+                out = fn(*a, **kw)
+            except BaseException:
+                raise e from None           # the call as written raises too
+            _record('raises', name, cand + changed, bound, 'a result',
+                    f'{type(e).__name__}: {str(e)[:160]}')
+            return out
     finally:
         S.busy = False
-    S.comparisons += 1
-    tag = f'{name}({",".join(cand)})'
-    S.per_fn[tag] = S.per_fn.get(tag, 0) + 1
-    if alt_c != canon(out) and len(S.problems) < 40:
-        try:
-            case = {'builder_default': {
-                'fn': name, 'args': {k: _enc(v) for k, v in bound.items()},
-                'omitted': cand}}
-        except Unencodable:
-            case = {'builder_default': {'fn': name, 'args': None,
-                                        'omitted': cand}}
-        S.problems.append((name, cand, case, canon(out), alt_c))
+    S.rewritten += 1
+    for tag in ([f'{name}(-{",".join(cand)})'] if cand else []) + \
+            ([f'{name}[{",".join(changed)}]'] if changed else []):
+        S.per_fn[tag] = S.per_fn.get(tag, 0) + 1
     return out
 
 
@@ -140,10 +236,9 @@ class ToolsProxy:
     def __getattr__(self, name):
         t = object.__getattribute__(self, '_t')
         v = getattr(t, name)
-        spec = DOC.get(name)
-        if spec is None or not callable(v):
+        if (name not in DOC and name not in FORMS) or not callable(v):
             return v
-        return functools.partial(_call, name, v, spec, t)
+        return functools.partial(_call, name, v, t)
 
     def __setattr__(self, name, value):
         setattr(object.__getattribute__(self, '_t'), name, value)
@@ -155,15 +250,19 @@ def _short(v):
 
 
 def drain(ctx) -> None:
-    ctx.count('monitor.builder_default_comparisons', S.comparisons)
+    ctx.count('monitor.builder_calls_rewritable', S.candidates)
+    ctx.count('monitor.builder_calls_rewritten', S.rewritten)
     for fn, n in S.per_fn.items():
-        ctx.tab('builder_default_compared', fn, n)
-    for name, cand, case, want, got in S.problems:
-        ctx.violation(f'builder-default-differs:{name}:{"+".join(cand)}',
-                      f'{name} called without {cand} does not return what it '
-                      'returns for the documented default value(s)', case,
-                      _short(want), _short(got))
-    S.comparisons, S.per_fn, S.problems = 0, {}, []
+        ctx.tab('builder_call_rewritten', fn, n)
+    for kind, name, params, case, want, got in S.problems:
+        ctx.violation(
+            f'builder-rejects-documented-call:{name}:{"+".join(params)}',
+            f'{name} raises when {params} are left out (documented default) '
+            '/ passed in their other documented form, although the same call '
+            'with the values spelled out succeeds', case, _short(want),
+            _short(got))
+    S.candidates = S.rewritten = 0
+    S.per_fn, S.problems = {}, []
 
 
 def replay(case, ctx) -> None:
